@@ -20,10 +20,10 @@ def m(id, prop, path, search, replace, expect='fire', note=''):
 
 
 P = 'src/python_minifier/'
-m('m01', 'C02', P + 'token_printer.py', "            s = s[:-2] + '.'", "            s = s[:-2]", note='1.0 printed as 1')
+m('m01', 'C02', P + 'token_printer.py', "        elif s.endswith('.0'):\n            s = s[:-1]", "        elif s.endswith('.0'):\n            s = s[:-2]", note='1.0 printed as 1')
 m('m02', 'C02', P + 'expression_printer.py', "        if isinstance(op_node, ast.Pow) and right_precedence == 14:\n            op_precedence = right_precedence\n", "", note='** with unary operand')
 m('m04', 'C03', P + 'rename/mapper.py', "    iter_namespace = namespace\n    for generator in node.generators:", "    iter_namespace = node\n    for generator in node.generators:", note='first iterable in comprehension scope')
-m('m05', 'C03', P + 'rename/renamer.py', "    namespaces = {namespace}\n\n    for node in binding.references:\n        while node is not namespace:\n            namespaces.add(node.namespace)\n            node = node.namespace\n", "    namespaces = {namespace}\n", note='reservation scope = own namespace only')
+m('m05', 'C03', P + 'rename/renamer.py', "        while node is not namespace:\n            namespaces.add(node.namespace)\n            node = node.namespace\n\n    return namespaces", "    return namespaces", note='reservation scope ignores the scopes the references are in')
 m('m06', 'C03', P + 'rename/util.py', "    if isinstance(node.namespace, ast.ClassDef):\n        return get_nonlocal_namespace(node.namespace)\n\n    return node.namespace", "    return node.namespace", note='class scopes not skipped')
 m('m07', 'C04', P + 'rename/util.py', "    if hasattr(func.args, 'posonlyargs') and node in func.args.posonlyargs:\n        return True\n", "    if hasattr(func.args, 'posonlyargs') and node in func.args.posonlyargs:\n        return True\n    if hasattr(func.args, 'kwonlyargs') and node in func.args.kwonlyargs:\n        return True\n", note='keyword-only params renamed in place')
 m('m08', 'C04', P + 'rename/bind_names.py', "        if isinstance(namespace, ast.ClassDef):\n            # This name will become an attribute of the class, so it can't be renamed\n            binding.disallow_rename()\n", "", note='class attributes renamable')
@@ -40,7 +40,7 @@ m('m17', 'C07', P + 'transforms/constant_folding.py', "    if type(a) != type(b)
 m('m18', 'C07', P + 'transforms/constant_folding.py', "        if isinstance(node.op, ast.Div):\n", "        if False:\n", note='Div folded (2.7 differs)')
 m('m18b', 'C07', P + 'transforms/constant_folding.py', "        if isinstance(original_value, float) and math.isnan(original_value):", "        if False:", expect='silent', note='NaN accepted: equivalent, printing nan and re-evaluating fails and the fold is dropped')
 m('m18c', 'C07', P + 'transforms/constant_folding.py', "        if len(folded_expression) >= len(original_expression):", "        if False:", note='non-shorter folds accepted')
-m('m19', 'C08', P + 'module_printer.py', "                if self.precedence(item.context_expr) != 0 and self.precedence(item.context_expr) <= self.precedence(\n                    node\n                ):", "                if False:", note='with item never parenthesised')
+m('m19', 'C08', P + 'module_printer.py', "                elif self.precedence(item.context_expr) != 0 and self.precedence(item.context_expr) <= self.precedence(\n                    node\n                ):", "                elif False:", note='with item never parenthesised')
 m('m20', 'C09', P + 'rename/resolve_names.py', "['exec', 'eval', 'locals', 'globals', 'vars']", "['exec', 'eval', 'locals', 'globals']", note='vars not a taint trigger')
 m('m21', 'C09', P + '__init__.py', "        rename_globals = False\n        rename_locals = False\n", "        rename_globals = False\n", note='locals still renamed when tainted')
 m('m22', 'C10', P + 'rename/util.py', "            elif binding.name in preserve_locals:\n                binding.disallow_rename()\n", "", note='preserve_locals ignored')
